@@ -66,12 +66,24 @@ def log(*a):
     print("[vv]", *a, file=sys.stderr, flush=True)
 
 
-def sh(cmd, cwd=None, timeout=None, env=None, input=None):
-    """run, return (rc, stdout+stderr)"""
+def _limit_mem(gb):
+    import resource
+
+    def f():
+        resource.setrlimit(resource.RLIMIT_AS, (gb << 30, gb << 30))
+    return f
+
+
+def sh(cmd, cwd=None, timeout=None, env=None, input=None, mem_gb=None):
+    """run, return (rc, stdout+stderr); mem_gb caps the address space of the
+    child (a runaway vm_compute must not take the machine down)"""
+    if mem_gb is None and cmd and cmd[0] in ("make", "coqc", "coqchk"):
+        mem_gb = 20
     try:
         p = subprocess.run(cmd, cwd=cwd, timeout=timeout, env=env, input=input,
                            stdout=subprocess.PIPE, stderr=subprocess.STDOUT,
-                           text=True, errors="replace")
+                           text=True, errors="replace",
+                           preexec_fn=_limit_mem(mem_gb) if mem_gb else None)
         return p.returncode, p.stdout
     except subprocess.TimeoutExpired as e:
         out = e.stdout or ""
